@@ -42,9 +42,9 @@ def buffer_at_exit(p):
     """The buffer value when the refill loop was left (generalised loop-head value, or entry value)."""
     heads = [e for e in p.events if e.kind == 'loop-head' and e.under(READ)]
     if heads:
-        g = heads[-1].data['gen'].get(('attr', 'buffer'))
-        if g is not None:
-            return g
+        for k, g in heads[-1].data['gen'].items():
+            if k[0] in ('attr', 'cattr') and k[1] == 'buffer' and g is not None:
+                return g
     # unrolled run: the buffer after the last refill = value stored by the assignment that follows the last
     # non-empty file read (refill append), else the entry value
     val = p.interp.user['buf0']
@@ -196,8 +196,14 @@ def check(prog, res, tier):
 
     # ---- C05.f termination
     from .c07 import progress_ob
-    for ln in [n for n in ast.walk(ufi.node) if isinstance(n, ast.While)]:
-        ob = progress_ob(prog, res, ufi, ln, runs_n)
+    loops = [n for n in ast.walk(ufi.node) if isinstance(n, ast.While)]
+    for p_ in runs_n.inv:
+        # refill loops moved into helpers / generators called by read()
+        for e in p_.events:
+            if e.kind == 'loop-head' and isinstance(e.node, ast.While) and e.under(READ) and e.node not in loops:
+                loops.append(e.node)
+    for ln in loops:
+        ob = progress_ob(prog, res, prog.node_owner.get(id(ln), ufi), ln, runs_n)
         ob.oid = 'C05.f'
         ob.rule = 'C05.f'
         res.add(ob)
